@@ -22,7 +22,9 @@ type SampleDesc struct {
 
 // PartTrackDesc is one traf of a fragment.
 type PartTrackDesc struct {
-	Track   int          `json:"track"` // index into StreamDesc.Tracks
+	// index into StreamDesc.Tracks; negative: the traf of a track the client does not process,
+	// StreamDesc.Unsup[-1-Track] (its samples are never a Client callback)
+	Track   int          `json:"track"`
 	Base    int64        `json:"base"`
 	Samples []SampleDesc `json:"samples"`
 }
@@ -42,12 +44,28 @@ type PESDesc struct {
 	IDR   bool  `json:"idr,omitempty"`
 }
 
-// UnsupDesc is an elementary stream of the PMT with a codec the client does not support
-// (MPEG-TS only). The PMT lists, for i = 0..len(Tracks): every UnsupDesc with Before == i (in
-// the order of StreamDesc.Unsup), then Tracks[i].
+// UnsupDesc is a track the client does not process.
+//
+// MPEG-TS: an elementary stream of the PMT with a codec the client does not support. The PMT
+// lists, for i = 0..len(Tracks): every UnsupDesc with Before == i (in the order of
+// StreamDesc.Unsup), then Tracks[i].
+//
+// fMP4: either a track of the init section with a codec the client filters out of OnTracks
+// (listed in the init like a PMT entry: before supported track #Before), or, with Absent, a
+// track ID that fragments carry a traf for although the init section does not declare it (e.g.
+// timed metadata added by a packager). The trafs are PartTrackDesc entries with a negative Track.
 type UnsupDesc struct {
-	Codec  string `json:"codec"`  // mp3 | ac3 | opus | h265 | mpeg4video | mpeg1video
-	Before int    `json:"before"` // listed before supported track #Before (len(Tracks): after all of them)
+	// MPEG-TS: mp3 | ac3 | opus | h265 | mpeg4video | mpeg1video
+	// fMP4:    mp3 | ac3 | lpcm | mjpeg | mpeg4video | mpeg1video ("none" with Absent)
+	Codec     string `json:"codec"`
+	Before    int    `json:"before"`           // listed before supported track #Before (len(Tracks): after all of them)
+	ID        int    `json:"id,omitempty"`     // fMP4 track ID
+	TimeScale int64  `json:"ts,omitempty"`     // fMP4 timescale
+	Absent    bool   `json:"absent,omitempty"` // fMP4: not declared in the init section
+}
+
+func (u UnsupDesc) isVideo() bool {
+	return u.Codec == "mjpeg" || u.Codec == "mpeg4video" || u.Codec == "mpeg1video" || u.Codec == "h265"
 }
 
 // XPESDesc is one PES of an unsupported elementary stream.
@@ -71,7 +89,7 @@ type SegDesc struct {
 // StreamDesc is one media playlist.
 type StreamDesc struct {
 	Tracks   []TrackDesc `json:"tracks"`          // the SUPPORTED tracks, in PMT / init order
-	Unsup    []UnsupDesc `json:"unsup,omitempty"` // MPEG-TS: unsupported elementary streams of the PMT
+	Unsup    []UnsupDesc `json:"unsup,omitempty"` // tracks the client does not process (PMT entries / init tracks / undeclared track IDs)
 	Segs     []SegDesc   `json:"segs"`
 	FirstLen int         `json:"first_len"` // live: number of segments in the first playlist response
 	TrimTo   int         `json:"trim_to"`   // live: later responses start at this segment
@@ -115,17 +133,21 @@ func (d *Desc) firstSeg(s *StreamDesc) int {
 	}
 }
 
-// pmtEntry is one elementary stream of a MPEG-TS playlist's PMT, in PMT order.
+// pmtEntry is one elementary stream of a MPEG-TS playlist's PMT, in PMT order; for fMP4, one
+// track of the init section, in init order.
 type pmtEntry struct {
 	Sup   int    // index into StreamDesc.Tracks, -1 for an unsupported stream
 	X     int    // index into StreamDesc.Unsup, -1 for a supported stream
-	Codec string // h264 | aac | mp3 | ac3 | opus | h265 | mpeg4video | mpeg1video
+	Codec string // h264 | aac | mp3 | ac3 | opus | h265 | mpeg4video | mpeg1video | lpcm | mjpeg
 }
 
 func (st *StreamDesc) pmt() []pmtEntry {
 	var out []pmtEntry
 	for i := 0; i <= len(st.Tracks); i++ {
 		for x, u := range st.Unsup {
+			if u.Absent {
+				continue
+			}
 			b := u.Before
 			if b < 0 {
 				b = 0
@@ -142,4 +164,39 @@ func (st *StreamDesc) pmt() []pmtEntry {
 		}
 	}
 	return out
+}
+
+// trafTrack resolves a traf of a fMP4 stream: the track ID it carries, whether it belongs to a
+// track the client processes, whether its samples are video.
+func (st *StreamDesc) trafTrack(pt PartTrackDesc) (id int, supported bool, video bool, ok bool) {
+	if pt.Track >= 0 {
+		if pt.Track >= len(st.Tracks) {
+			return 0, false, false, false
+		}
+		t := st.Tracks[pt.Track]
+		return t.ID, true, t.isVideo(), true
+	}
+	x := -1 - pt.Track
+	if x >= len(st.Unsup) {
+		return 0, false, false, false
+	}
+	return st.Unsup[x].ID, false, st.Unsup[x].isVideo(), true
+}
+
+// unsupTrafSeg returns the index of the first segment >= from that carries a traf of a track
+// the client does not process (-1: none).
+func (st *StreamDesc) unsupTrafSeg(from int) int {
+	if from < 0 {
+		from = 0
+	}
+	for k := from; k < len(st.Segs); k++ {
+		for _, p := range st.Segs[k].Parts {
+			for _, pt := range p.Tracks {
+				if pt.Track < 0 {
+					return k
+				}
+			}
+		}
+	}
+	return -1
 }
